@@ -410,7 +410,14 @@ func baseToNumber(L *LState) int {
 		L.Push(lv)
 	case LString:
 		str := strings.Trim(string(lv), " \n\t")
-		if strings.Index(str, ".") > -1 {
+		if noBase || base == 10 {
+			// the standard conversion: the same numerals as the lexer and arithmetic coercion
+			if v, err := parseNumber(str); err != nil {
+				L.Push(LNil)
+			} else {
+				L.Push(v)
+			}
+		} else if strings.Index(str, ".") > -1 {
 			if v, err := strconv.ParseFloat(str, LNumberBit); err != nil {
 				L.Push(LNil)
 			} else {
